@@ -5,8 +5,15 @@
 #[macro_use]
 pub mod util;
 
-#[cfg(any(feature = "c04", feature = "replay"))]
+#[cfg(feature = "c02")]
+pub mod c02;
+#[cfg(feature = "c03")]
+pub mod c03;
+#[cfg(feature = "c04")]
 pub mod c04;
+
+#[cfg(feature = "c05")]
+pub mod c05;
 
 #[cfg(feature = "replay")]
 #[cfg(kani)]
